@@ -24,6 +24,7 @@
 -/
 import MxModel.Lemmas.FarmCover
 import MxModel.Lemmas.FarmWeekSafe
+import MxModel.Lemmas.FarmLive
 
 namespace Mx.C05Cover
 open Mx.Farm
@@ -153,6 +154,57 @@ theorem no_underflow_reserve_enter_merge (kind : Kind) (same : Bool) (dsc pb : N
   obtain ⟨h', rfl⟩ := takePayments_spec l h0
   have hI' : PoolInv (addFarming { s with hold := h' } amt) := hI.of_view rfl
   exact boosted_le_of_cov hI' (cov_of_gen hI' hA.res hA.split) (hK.paidBase_le (by rw [hdsc]; exact hd)) h2
+
+/-! ### no_underflow: exit and claim can only fail inside the weekly-rewards module -/
+
+/-- **principal is withdrawable unless the weekly-rewards module aborts.**  In every reachable state of
+    an active farm, whoever holds `a > 0` of position `n`: the settlement (`generate`) succeeds, and
+    `exitFarm` with that payment succeeds as soon as the two calls into the weekly-rewards-splitting
+    module succeed — the caller's boosted claim on the settled state and `clear_user_energy_if_needed`
+    on the state with the owner's total decreased.  Every other guard and every other checked
+    subtraction of the endpoint (reserve − reward, supply − amount, epoch − entering epoch, amount −
+    penalty, farming balance − amount, reward balance − reward / the lock period of `lockVirtual`)
+    is discharged by the invariants. -/
+theorem exit_succeeds (kind : Kind) (same : Bool) (dsc pb : Nat) (produce : Bool)
+    (users : List Nat) (e0 : Nat) (hnd : users.Nodup) (hd : dsc ≠ 0) (ops : List Op) (u n a : Nat) :
+    let s := run (init kind same dsc pb produce users e0) ops
+    s.active = true → a ≠ 0 → a ≤ s.hold u n →
+    ∃ att s1 c1, s.attrs n = some att ∧ generate s (Cache.read s) = some (s1, c1) ∧
+      ∀ s2 boosted, claimBoostedYields s1 u = some (s2, boosted) →
+        (clearUserEnergyIfNeeded (decreaseOwner s2 att.owner a) u).isSome = true →
+        (step s (.exit u none n a)).isSome = true := by
+  intro s hact ha hle
+  obtain ⟨hA, hP, hK, hI, hdsc⟩ := reachable_invs kind same dsc pb produce users e0 hnd ops
+  have hX := reachable_xinv kind same dsc pb produce users e0 ops
+  have hne : s.hold u n ≠ 0 := by omega
+  obtain ⟨hu, _, hsome⟩ := hP.dom u n hne
+  obtain ⟨att, hat⟩ := Option.isSome_iff_exists.mp hsome
+  obtain ⟨s1, c1, hg⟩ := generate_ok (s := s) (Cache.read s) hI.time hI.pct
+  refine ⟨att, s1, c1, hat, hg, fun s2 boosted hb hc => ?_⟩
+  have := exitFarm_ok hA hP hK hI hX (by rw [hdsc]; exact hd) hact ha hle hat hg hb hc
+  simp only [step, known, hu, if_true]
+  exact this
+
+/-- the same for `claimRewards` of one payment by its holder: it can only fail inside the boosted
+    claim (`claim_multi` of the weekly-rewards module, including the per-week pool subtraction) -/
+theorem claim_succeeds (kind : Kind) (same : Bool) (dsc pb : Nat) (produce : Bool)
+    (users : List Nat) (e0 : Nat) (hnd : users.Nodup) (hd : dsc ≠ 0) (ops : List Op) (u n a : Nat) :
+    let s := run (init kind same dsc pb produce users e0) ops
+    s.active = true → a ≠ 0 → a ≤ s.hold u n →
+    ∃ s1 c1, generate s (Cache.read s) = some (s1, c1) ∧
+      ∀ s2 boosted, claimBoostedYields s1 u = some (s2, boosted) →
+        (step s (.claim u none [(n, a)])).isSome = true := by
+  intro s hact ha hle
+  obtain ⟨hA, hP, hK, hI, hdsc⟩ := reachable_invs kind same dsc pb produce users e0 hnd ops
+  have hX := reachable_xinv kind same dsc pb produce users e0 ops
+  have hne : s.hold u n ≠ 0 := by omega
+  obtain ⟨hu, _, hsome⟩ := hP.dom u n hne
+  obtain ⟨att, hat⟩ := Option.isSome_iff_exists.mp hsome
+  obtain ⟨s1, c1, hg⟩ := generate_ok (s := s) (Cache.read s) hI.time hI.pct
+  refine ⟨s1, c1, hg, fun s2 boosted hb => ?_⟩
+  have := claimRewards_ok hA hP hK hI hX (by rw [hdsc]; exact hd) hact ha hle hat hg hb
+  simp only [step, known, hu, if_true]
+  exact this
 
 /-! ### no_underflow in full is FALSE: the weekly pool subtraction -/
 
